@@ -250,7 +250,15 @@ def judge_case(pid, run, case, res, known):
         return
     if pid == "C10":
         for w, err in structure_errors():
-            # structure is C08's business; numbers cannot be judged on a broken structure
+            # structure is C08's business - unless the token at which the output departs is a number: a numeric token
+            # that comes out as another kind of token, with another unit, or as several tokens, did not keep its value
+            idx = len(outs[w][0])
+            lst = exp["normal" if w == "normal" else "low"]
+            e_fail = lst[idx] if idx < len(lst) else None
+            if e_fail is not None and e_fail.k in ("num", "dim", "pct") and getattr(e_fail, "kind", None) != "replayed":
+                src = e_fail.src.text if e_fail.src is not None else "?"
+                viol(f"the numeric token {src} did not come out as one {e_fail.k} token" + (f" with unit {e_fail.unit}" if e_fail.unit else "") + f": {err}", out=res["out"], ratio=opts.get("rpx_ratio"))
+                return
             run.count("structure_mismatch_skipped")
             return
         seen_num = False
